@@ -54,11 +54,19 @@ func (p *Prog) isCompiledField(a *Anchors, v ssa.Value) (string, bool) {
 }
 
 // classifyText: where does the written text come from?
-var classifyVisiting = map[ssa.Value]bool{}
+// classifyVisiting: values on the current walk, each in the helper call through which it was reached (classifyFrame, see
+// tol_T4.go): the same phi of a helper entered through two different calls is not a cycle.
+type classifyKey struct {
+	v  ssa.Value
+	fr *classifyFrame
+}
+
+var classifyVisiting = map[classifyKey]bool{}
 
 func classifyText(p *Prog, a *Anchors, v ssa.Value, depth int) textClass {
 	if depth == 0 {
-		classifyVisiting = map[ssa.Value]bool{}
+		classifyVisiting = map[classifyKey]bool{}
+		classifyCtx = nil
 	}
 	if depth > 14 {
 		return textClass{kind: "unknown", why: "too deep"}
@@ -69,6 +77,9 @@ func classifyText(p *Prog, a *Anchors, v ssa.Value, depth int) textClass {
 		return textClass{kind: "const", why: "constant"}
 	case *ssa.Convert:
 		return classifyText(p, a, x.X, depth+1)
+	case *ssa.Parameter:
+		// an extracted helper: the text is what the callers pass
+		return classifyParamText(p, a, x, depth)
 	case *ssa.Slice:
 		return classifyText(p, a, x.X, depth+1)
 	case *ssa.UnOp:
@@ -103,11 +114,12 @@ func classifyText(p *Prog, a *Anchors, v ssa.Value, depth int) textClass {
 			}
 		}
 	case *ssa.Phi:
-		if classifyVisiting[x] {
+		vk := classifyKey{x, classifyCtx}
+		if classifyVisiting[vk] {
 			return textClass{kind: "cycle"}
 		}
-		classifyVisiting[x] = true
-		defer delete(classifyVisiting, x)
+		classifyVisiting[vk] = true
+		defer delete(classifyVisiting, vk)
 		var acc *textClass
 		for _, e := range x.Edges {
 			if e == ssa.Value(x) {
@@ -208,19 +220,10 @@ func classifyText(p *Prog, a *Anchors, v ssa.Value, depth int) textClass {
 		case "(*Value).String":
 			return textClass{kind: "value", val: cc.Args[0], why: "String() of a *Value"}
 		}
-		// a package helper returning text: classify what it returns
-		if p.InPkg(callee) && callee.Blocks != nil && depth < 10 && isStringType(callee.Signature.Results().At(0).Type()) {
-			var acc *textClass
-			for _, ret := range returnsOf(callee) {
-				tc := classifyText(p, a, res(ret, 0), depth+1)
-				if acc == nil {
-					acc = &tc
-				} else if acc.kind != tc.kind {
-					return textClass{kind: "unknown", why: "helper " + name + " returns " + acc.kind + " and " + tc.kind}
-				}
-			}
-			if acc != nil {
-				return *acc
+		// a package helper returning text: classify what it returns, its parameters standing for this call's arguments
+		if p.InPkg(callee) && callee.Blocks != nil && depth < 10 && callee.Signature.Results().Len() > 0 && isStringType(callee.Signature.Results().At(0).Type()) {
+			if tc, ok := classifyHelperResult(p, a, x, callee, depth); ok {
+				return tc
 			}
 		}
 		return textClass{kind: "unknown", why: "result of " + name}
@@ -341,7 +344,8 @@ func ruleC02Sink(p *Prog, a *Anchors, r *Report) {
 				}
 				tc := classifyText(p, a, cc.Args[0], 0)
 				switch tc.kind {
-				case "const", "rendered", "numeric", "time":
+				case "const", "rendered", "numeric", "time", "optout":
+					// optout: the sink is in a helper; a *Value's text was judged at the call that hands it over (tol_T4.go)
 					r.OK(key, pos, "%s text: %s", tc.kind, tc.why)
 					continue
 				case "unknown":
